@@ -453,7 +453,7 @@ pub fn compile(sc: &K18) -> KChild {
             };
             text.push_str(&format!("*{};\n", wire::hex(&wire::df17(5, addr, me))));
             if (i + 1) % 250 == 0 || i + 1 == sc.bulk {
-                segments.push(KSegment { at_us: 50_000 + nseg * 1_000, hex: wire::hex(text.as_bytes()) });
+                segments.push(KSegment { at_us: 50_000 + nseg * 1_000, hex: wire::hex(text.as_bytes()), repeat: 0 });
                 text.clear();
                 nseg += 1;
             }
@@ -468,7 +468,7 @@ pub fn compile(sc: &K18) -> KChild {
             text.push_str(&format!("*{};\n", sc.lines[i].1));
             i += 1;
         }
-        segments.push(KSegment { at_us: t, hex: wire::hex(text.as_bytes()) });
+        segments.push(KSegment { at_us: t, hex: wire::hex(text.as_bytes()), repeat: 0 });
     }
     let connects = vec![KConnect {
         outcome: KOutcome::Accept,
